@@ -33,6 +33,7 @@ type runConfig struct {
 	curJob                *job
 	verbose               bool
 	noIfConv              bool
+	slicing               bool
 	profile               bool
 	siteMu                sync.Mutex
 	sites                 map[string]int
@@ -42,7 +43,7 @@ type runConfig struct {
 
 func defaultConfig(tier string) *runConfig {
 	c := &runConfig{
-		tier: tier, workers: min(16, runtime.NumCPU()), solverKind: "z3",
+		tier: tier, workers: min(16, runtime.NumCPU()), solverKind: "z3-new",
 		queryTimeoutMs: 400, fallbackSolver: "cvc5", fallbackTimeoutMs: 30000, unwind: 1000, maxInstrs: 20_000_000, maxDepth: 400,
 		maxDecisions: 20000, maxValues: 300, maxAlloc: 1 << 22, maxViolationsPerLabel: 3,
 		maxPaths: 400000, harnessBudget: 150 * time.Second,
@@ -92,7 +93,7 @@ func (w *worker) runPath(j *job, it *workItem) {
 			return
 		}
 	}
-	p := &pathState{item: it, unwind: in.cfg.unwind}
+	p := &pathState{item: it, unwind: in.cfg.unwind, slicing: in.cfg.slicing}
 	in.path = p
 	in.logging = true
 	in.depth = 0
